@@ -283,7 +283,79 @@ package httpgen
 //@   at-call json.Marshal requires only_these: isType(arg0, int64) || isType(arg0, uint64) || isType(arg0, map[string]json.RawMessage)
 //@   at-call json.Marshal requires final_map_n: isType(arg0, map[string]json.RawMessage) ==> (x.N != 0 ==> inDom(asType(arg0, map[string]json.RawMessage), "n") && asType(arg0, map[string]json.RawMessage)["n"] == result0(json.Marshal(x.N))) && (x.N == 0 ==> !inDom(asType(arg0, map[string]json.RawMessage), "n"))
 //@   at-call json.Marshal requires final_map_u: isType(arg0, map[string]json.RawMessage) ==> (x.U != 0 ==> inDom(asType(arg0, map[string]json.RawMessage), "u") && asType(arg0, map[string]json.RawMessage)["u"] == result0(json.Marshal(x.U))) && (x.U == 0 ==> !inDom(asType(arg0, map[string]json.RawMessage), "u"))
+//@   at-call json.Marshal requires whole_map: isType(arg0, map[string]json.RawMessage) ==> asType(arg0, map[string]json.RawMessage) == spec.counterEnc(jsonDecoded(lastRetAs("protojson.Marshal", []byte), map[string]json.RawMessage), x.N, x.U)
 //@   ensures nil_message: x == nil ==> err == nil
+
+// the decoder of the same message (C04): the request object is decoded once; under the keys of the NUMBER-encoded fields
+// a JSON number is replaced by the decimal string of the same value, every other key is passed on as received; the
+// result goes to the strict protojson decoder with the message itself as the target
+//@ emitted func (x *Counter) UnmarshalJSON(data []byte) (err error)
+//@   modifies *
+//@   at-call json.Marshal requires rewritten_map: isType(arg0, map[string]json.RawMessage) ==> jsonDecodes(data, map[string]json.RawMessage) && asType(arg0, map[string]json.RawMessage) == spec.counterDec(jsonDecoded(data, map[string]json.RawMessage))
+//@   at-call protojson.Unmarshal requires into_the_message: arg1 == x && arg0 == lastRetAs("json.Marshal", []byte) && isType(lastArgIface("json.Marshal", "0"), map[string]json.RawMessage)
+//@   ensures undecodable_is_an_error: !jsonDecodes(data, map[string]json.RawMessage) ==> err != nil
+//@   ensures decoded_once: err == nil ==> count("protojson.Unmarshal") == old(count("protojson.Unmarshal")) + 1
+
+// ---- timestamp_format codec of one message of the extraction schema (C04/C05): one field per documented format ----
+// the encoder starts from protojson's own object and replaces exactly the annotated, set fields by the documented form
+//@ emitted func (x *Stamp) MarshalJSON() (b []byte, err error)
+//@   modifies *
+//@   at-call protojson.Marshal requires base_is_the_message: x != nil && arg0 == x
+//@   at-call json.Marshal requires whole_map: isType(arg0, map[string]json.RawMessage) ==> asType(arg0, map[string]json.RawMessage) == spec.stampEnc(jsonDecoded(lastRetAs("protojson.Marshal", []byte), map[string]json.RawMessage), x.Secs, x.Millis, x.Day)
+//@   ensures nil_message: x == nil ==> err == nil
+//@   ensures encoded_once: x != nil && err == nil ==> count("protojson.Marshal") == old(count("protojson.Marshal")) + 1
+
+// the decoder rewrites exactly those keys into RFC 3339 text and hands the object to the strict protojson decoder
+//@ emitted func (x *Stamp) UnmarshalJSON(data []byte) (err error)
+//@   modifies *
+//@   at-call json.Marshal requires rewritten_map: isType(arg0, map[string]json.RawMessage) ==> jsonDecodes(data, map[string]json.RawMessage) && asType(arg0, map[string]json.RawMessage) == spec.stampDec(jsonDecoded(data, map[string]json.RawMessage))
+//@   at-call protojson.Unmarshal requires into_the_message: arg1 == x && arg0 == lastRetAs("json.Marshal", []byte) && isType(lastArgIface("json.Marshal", "0"), map[string]json.RawMessage)
+//@   ensures undecodable_is_an_error: !jsonDecodes(data, map[string]json.RawMessage) ==> err != nil
+//@   ensures decoded_once: err == nil ==> count("protojson.Unmarshal") == old(count("protojson.Unmarshal")) + 1
+
+// ---- bytes_encoding codec of one message of the extraction schema (C04/C05): two messages, one field per documented alphabet ----
+//@ emitted func (x *Blob) MarshalJSON() (b []byte, err error)
+//@   modifies *
+//@   at-call protojson.Marshal requires base_is_the_message: x != nil && arg0 == x
+//@   at-call json.Marshal requires whole_map: isType(arg0, map[string]json.RawMessage) ==> asType(arg0, map[string]json.RawMessage) == spec.blobEnc(jsonDecoded(lastRetAs("protojson.Marshal", []byte), map[string]json.RawMessage), x.StdRaw, x.Url)
+//@   ensures nil_message: x == nil ==> err == nil
+//@   ensures encoded_once: x != nil && err == nil ==> count("protojson.Marshal") == old(count("protojson.Marshal")) + 1
+
+//@ emitted func (x *Blob) UnmarshalJSON(data []byte) (err error)
+//@   modifies *
+//@   at-call json.Marshal requires rewritten_map: isType(arg0, map[string]json.RawMessage) ==> jsonDecodes(data, map[string]json.RawMessage) && asType(arg0, map[string]json.RawMessage) == spec.blobDec(jsonDecoded(data, map[string]json.RawMessage))
+//@   at-call protojson.Unmarshal requires into_the_message: arg1 == x && arg0 == lastRetAs("json.Marshal", []byte) && isType(lastArgIface("json.Marshal", "0"), map[string]json.RawMessage)
+//@   ensures undecodable_is_an_error: !jsonDecodes(data, map[string]json.RawMessage) ==> err != nil
+//@   ensures decoded_once: err == nil ==> count("protojson.Unmarshal") == old(count("protojson.Unmarshal")) + 1
+
+//@ emitted func (x *BlobB) MarshalJSON() (b []byte, err error)
+//@   modifies *
+//@   at-call protojson.Marshal requires base_is_the_message: x != nil && arg0 == x
+//@   at-call json.Marshal requires whole_map: isType(arg0, map[string]json.RawMessage) ==> asType(arg0, map[string]json.RawMessage) == spec.blobBEnc(jsonDecoded(lastRetAs("protojson.Marshal", []byte), map[string]json.RawMessage), x.UrlRaw, x.Hex)
+//@   ensures nil_message: x == nil ==> err == nil
+//@   ensures encoded_once: x != nil && err == nil ==> count("protojson.Marshal") == old(count("protojson.Marshal")) + 1
+
+//@ emitted func (x *BlobB) UnmarshalJSON(data []byte) (err error)
+//@   modifies *
+//@   at-call json.Marshal requires rewritten_map: isType(arg0, map[string]json.RawMessage) ==> jsonDecodes(data, map[string]json.RawMessage) && asType(arg0, map[string]json.RawMessage) == spec.blobBDec(jsonDecoded(data, map[string]json.RawMessage))
+//@   at-call protojson.Unmarshal requires into_the_message: arg1 == x && arg0 == lastRetAs("json.Marshal", []byte) && isType(lastArgIface("json.Marshal", "0"), map[string]json.RawMessage)
+//@   ensures undecodable_is_an_error: !jsonDecodes(data, map[string]json.RawMessage) ==> err != nil
+//@   ensures decoded_once: err == nil ==> count("protojson.Unmarshal") == old(count("protojson.Unmarshal")) + 1
+
+// ---- nullable codec of one message of the extraction schema (C04/C05): unset <-> null, for a string and a number ----
+//@ emitted func (x *Profile) MarshalJSON() (b []byte, err error)
+//@   modifies *
+//@   at-call protojson.Marshal requires base_is_the_message: x != nil && arg0 == x
+//@   at-call json.Marshal requires whole_map: isType(arg0, map[string]json.RawMessage) ==> asType(arg0, map[string]json.RawMessage) == spec.profileEnc(jsonDecoded(lastRetAs("protojson.Marshal", []byte), map[string]json.RawMessage), x.Nick == nil, x.Age == nil)
+//@   ensures nil_message: x == nil ==> err == nil
+//@   ensures encoded_once: x != nil && err == nil ==> count("protojson.Marshal") == old(count("protojson.Marshal")) + 1
+
+//@ emitted func (x *Profile) UnmarshalJSON(data []byte) (err error)
+//@   modifies *
+//@   at-call json.Marshal requires rewritten_map: isType(arg0, map[string]json.RawMessage) ==> jsonDecodes(data, map[string]json.RawMessage) && asType(arg0, map[string]json.RawMessage) == spec.profileDec(jsonDecoded(data, map[string]json.RawMessage))
+//@   at-call protojson.Unmarshal requires into_the_message: arg1 == x && arg0 == lastRetAs("json.Marshal", []byte) && isType(lastArgIface("json.Marshal", "0"), map[string]json.RawMessage)
+//@   ensures undecodable_is_an_error: !jsonDecodes(data, map[string]json.RawMessage) ==> err != nil
+//@   ensures decoded_once: err == nil ==> count("protojson.Unmarshal") == old(count("protojson.Unmarshal")) + 1
 
 // ---- root-unwrap list codec of one message of the extraction schema (C05): the body is the JSON array of the
 // elements, each in its own proto3 JSON form (protojson, since the element type has no codec of its own) ----
